@@ -349,7 +349,9 @@ func (server *Server) responseMessage(conn io.Writer, msg *Message) error {
 	var err error
 	if msg != nil {
 		bytes, err = msg.RESPBytes()
-	} else {
+	}
+	if msg == nil || err != nil {
+		// Every request gets a reply, even if its result can not be serialized.
 		bytes, err = NewErrorMessage(ErrSystem).RESPBytes()
 	}
 	if err != nil {
